@@ -17,6 +17,7 @@ type modLoc struct {
 	obj    Term
 	lo, hi Term // [lo,hi) cell offsets; ignored when whole
 	whole  bool
+	all    bool // every cell of this heap kind (modifies kindof(loc))
 	single bool // hi == lo+1
 	cond   Term // the location may change only if this entry-state condition holds
 	ty     types.Type // type of a single cell (for the type invariant of its new value)
@@ -154,12 +155,34 @@ func (f *frame) execCall(v ssa.Value, cm *ssa.CallCommon, g Term, st *State) err
 	}
 	sig := cm.Signature()
 	sp, callee := f.calleeSpec(cm)
+	var free []Term
+	if mc, ok := cm.Value.(*ssa.MakeClosure); ok {
+		for _, b := range mc.Bindings {
+			free = append(free, f.val(b))
+		}
+	}
 	// dynamic call through a function value
 	if callee == nil && !cm.IsInvoke() {
 		ord := f.dynOrdinal(cm)
 		fv := f.val(cm.Value)
 		f.safety("nil", g, Ne(fv, Term{"0", SFn}), instrOf(v, f))
-		if f.spec != nil {
+		if ci := vc.closures[fv.S]; ci != nil && len(ci.fn.Blocks) > 0 && f.depth < 6 {
+			// the value is a closure made in this very VC (it reached here through inlined frames):
+			// the call is static.  A closure has no contract of its own (it talks about captured
+			// variables), so its body is inlined.
+			callee = ci.fn
+			free = ci.free
+			if csp, ok := vc.P.Specs[FuncKey(callee)]; ok && !csp.Inline {
+				sp = csp
+			} else {
+				results, err := f.inlineCall(callee, free, args, g, st)
+				if err != nil {
+					return err
+				}
+				f.setResults(v, sig, results)
+				return nil
+			}
+		} else if f.spec != nil {
 			if name, ok := f.spec.DynCalls[ord]; ok {
 				fs := vc.P.FnSpecs[name]
 				if fs == nil {
@@ -169,13 +192,20 @@ func (f *frame) execCall(v ssa.Value, cm *ssa.CallCommon, g Term, st *State) err
 			}
 		}
 	}
+	if cm.IsInvoke() && sp != nil && len(sp.Dispatch) > 0 {
+		return f.dispatchCall(v, sp, cm, args, g, st)
+	}
 	var results []Term
 	var err error
 	switch {
 	case sp != nil && sp.Inline && callee != nil && len(callee.Blocks) > 0 && f.depth < 4:
-		results, err = f.inlineCall(callee, cm, args, g, st)
+		results, err = f.inlineCall(callee, free, args, g, st)
 	case sp != nil:
 		results, err = f.applySpec(sp, callee, sig, cm.IsInvoke(), args, argTypes, g, st, v)
+	case callee != nil && isLeaf(callee) && f.depth < 4:
+		// a straight-line function without calls and without a contract: its body is its contract
+		vc.note("leaf function %s inlined", FuncKey(callee))
+		results, err = f.inlineCall(callee, free, args, g, st)
 	default:
 		name := "dynamic call"
 		if callee != nil {
@@ -194,6 +224,11 @@ func (f *frame) execCall(v ssa.Value, cm *ssa.CallCommon, g Term, st *State) err
 	if err != nil {
 		return err
 	}
+	f.setResults(v, sig, results)
+	return nil
+}
+
+func (f *frame) setResults(v ssa.Value, sig *types.Signature, results []Term) {
 	if v != nil {
 		switch sig.Results().Len() {
 		case 0:
@@ -203,7 +238,6 @@ func (f *frame) execCall(v ssa.Value, cm *ssa.CallCommon, g Term, st *State) err
 			f.tup[v] = results
 		}
 	}
-	return nil
 }
 
 func instrOf(v ssa.Value, f *frame) ssa.Instruction {
@@ -269,6 +303,41 @@ func (vc *VC) evalMods(sp *spec.FuncSpec, env *Env) ([]modLoc, error) {
 				out = append(out, modLoc{cond: curCond, key: k, obj: SObj(sv.T), lo: SOff(sv.T), hi: Add(SOff(sv.T), Mul(SLen(sv.T), IntLit(c)))})
 			}
 		case *spec.Call:
+			if n.Fun == "kindof" {
+				// every cell of the heap kind(s) of this location's type, in any object: a coarse
+				// but true frame for writes whose set of objects a contract cannot enumerate
+				var ty types.Type
+				if sl, ok := n.Args[0].(*spec.StrLit); ok {
+					// kindof("uint64"), kindof("*bc.ValueDestination"): the cell type by name
+					if o, ok := types.Universe.Lookup(sl.Val).(*types.TypeName); ok {
+						ty = o.Type()
+					} else {
+						t, err := env.lookupType(sl.Val)
+						if err != nil {
+							return nil, fmt.Errorf("modifies %s: %v", sp.ModSrc[i], err)
+						}
+						ty = t
+					}
+				} else {
+					sv, err := env.eval(n.Args[0])
+					if err != nil {
+						return nil, fmt.Errorf("modifies %s: %v", sp.ModSrc[i], err)
+					}
+					ty = sv.Ty
+					if sv.Loc != nil {
+						ty = sv.Loc.Ty
+					}
+				}
+				if ty == nil {
+					return nil, fmt.Errorf("modifies %s: untyped", sp.ModSrc[i])
+				}
+				acc := map[string]bool{}
+				tt.kinds(ty, acc)
+				for k := range acc {
+					out = append(out, modLoc{cond: curCond, key: k, all: true, obj: IntLit(0), lo: IntLit(0), hi: IntLit(0)})
+				}
+				continue
+			}
 			if n.Fun == "obj" || n.Fun == "whole" {
 				sv, err := env.eval(n.Args[0])
 				if err != nil {
@@ -401,6 +470,8 @@ func (vc *VC) havocMods(st *State, mods []modLoc) (wfs []func()) {
 		h := before
 		inner := arrayElemSort(h.Sort)
 		switch {
+		case m.all:
+			vc.setHeap(st, m.key, vc.declare("hk", h.Sort))
 		case m.whole:
 			fr := vc.declare("hv", inner)
 			vc.setHeap(st, m.key, Store(h, m.obj, fr))
@@ -599,17 +670,11 @@ func (vc *VC) addCallee(s string) {
 	vc.Callees = append(vc.Callees, s)
 }
 
-func (f *frame) inlineCall(callee *ssa.Function, cm *ssa.CallCommon, args []Term, g Term, st *State) ([]Term, error) {
+func (f *frame) inlineCall(callee *ssa.Function, free []Term, args []Term, g Term, st *State) ([]Term, error) {
 	vc := f.vc
 	vc.nframes++
 	nf := &frame{vc: vc, fn: callee, pfx: fmt.Sprintf("i%d_", vc.nframes), vals: map[ssa.Value]Term{}, tup: map[ssa.Value][]Term{},
 		spec: vc.P.Specs[FuncKey(callee)], depth: f.depth + 1, rangeOf: map[ssa.Value]*rangeInfo{}}
-	var free []Term
-	if mc, ok := cm.Value.(*ssa.MakeClosure); ok {
-		for _, b := range mc.Bindings {
-			free = append(free, f.val(b))
-		}
-	}
 	if len(free) != len(callee.FreeVars) {
 		return nil, fmt.Errorf("cannot inline closure %s: bindings unknown", callee.Name())
 	}
@@ -828,6 +893,19 @@ func (f *frame) execAppend(v ssa.Value, cm *ssa.CallCommon, g Term, st *State) e
 	n = vc.define(f.pfx+"appn", n)
 	newLen := vc.define(f.pfx+"applen", Add(SLen(s), n))
 	fits := vc.define(f.pfx+"appfits", Le(newLen, SCap(s)))
+	if f.top && f.spec != nil && f.spec.AllocBound != nil {
+		// a growing append allocates a constant factor of the new length (runtime growth policy,
+		// listed as an assumption): the new length itself must stay inside the budget
+		env := f.specEnv(st, nil, nil)
+		if in, ok := v.(ssa.Instruction); ok {
+			env.atBlock = in.Block()
+		}
+		b, err := env.eval(f.spec.AllocBound.E)
+		if err != nil {
+			return fmt.Errorf("%s:%d: %v", f.spec.AllocBound.File, f.spec.AllocBound.Line, err)
+		}
+		vc.oblige("alloc-budget", f.loopClauseProps(f.spec.AllocBound), And(g, Not(fits)), Le(Mul(newLen, IntLit(c)), b.T), f.spec.AllocBound.Src, f.pos(v.(ssa.Instruction)))
+	}
 	// in-place branch
 	inpl := st.clone()
 	if fromStr {
